@@ -748,6 +748,27 @@ def render_fn(d, log):
     src = load_source(d.relpath)
     it, impl = find_fn(src, d.qual)
     toks = src.toks
+    if d.opts.get('arm') and d.opts.get('stmt'):
+        # rule R4c: the statement that starts at the anchor text, up to and including its terminating `;` at nesting depth 0
+        body_start, body_end = toks[it.open].start, toks[it.close].end
+        pos = src.src.find(d.arm_anchor, body_start, body_end)
+        if pos < 0 or src.src.find(d.arm_anchor, pos + 1, body_end) >= 0:
+            raise LostAnchor(f'{d.qual}: statement {d.arm_anchor!r} not found exactly once')
+        k = next(i for i, t in enumerate(toks) if t.start >= pos)
+        while k < it.close and toks[k].text != ';':
+            if toks[k].kind == 'punct' and toks[k].text in '([{':
+                k = toks[k].match
+            k += 1
+        if k >= it.close:
+            raise LostAnchor(f'{d.qual}: statement {d.arm_anchor!r} has no terminating `;`')
+        sig = '\n'.join(d.arm_header) + '\n'
+        inner = '\n' + src.src[pos:toks[k].end]
+        body = '{' + inner + ('\n' + d.arm_tail + '\n' if d.arm_tail else '') + '}'
+        src_start = rustlex.line_of(src.src, pos)
+        src_end = rustlex.line_of(src.src, toks[k].end)
+        log.append(dict(rule='R4c', fn=d.qual, arm=d.arm_anchor, what='statement extracted as a function over its free variables'))
+        sha = hashlib.sha256(body.encode()).hexdigest()
+        return _finish_fn(d, log, sig, body, src_start, src_end, sha, [], d.opts.get('name') or 'stmt')
     if d.opts.get('arm'):
         o, c = slice_arm(src, it, d.arm_anchor, d.qual, block=bool(d.opts.get('block')))
         sig = '\n'.join(d.arm_header) + '\n'
